@@ -129,7 +129,7 @@ class Ctx:
         if isinstance(specdirs, str):
             specdirs = [specdirs]
         d = self._stage(specdirs)
-        workers = workers or min(NCPU, 8)
+        workers = workers or int(os.environ.get("VERIF_TLC_WORKERS", min(NCPU, 8)))
         jopts = ["-XX:+UseParallelGC", "-Xmx" + heap, "-Xss64m"]
         if dfs:
             jopts.append("-Dtlc2.tool.queue.IStateQueue=StateDeque")
@@ -435,11 +435,17 @@ def kf_matches(match, subject):
 
 
 def load_known_findings():
-    p = os.path.join(VERIF, "known_findings.json")
-    if not os.path.exists(p):
-        return []
-    with open(p) as f:
-        return json.load(f).get("findings", [])
+    """known_findings.json plus known_findings.d/*.json (same format), all committed, read-only."""
+    out = []
+    paths = [os.path.join(VERIF, "known_findings.json")]
+    d = os.path.join(VERIF, "known_findings.d")
+    if os.path.isdir(d):
+        paths += [os.path.join(d, f) for f in sorted(os.listdir(d)) if f.endswith(".json")]
+    for p in paths:
+        if os.path.exists(p):
+            with open(p) as f:
+                out += json.load(f).get("findings", [])
+    return out
 
 
 def read_ndjson(path):
